@@ -58,8 +58,11 @@ func (c *ScalarCase) carrierOK() bool {
 		}
 		return urlSafe(s)
 	case "map", "mapiface", "listmap":
-		return c.T.K != "array" && c.T.K != "slice"
+		return c.T.Elem == nil && c.T.K != "struct" && c.T.K != "time"
 	case "var":
+		if c.T.K == "struct" || c.T.K == "map" || c.T.K == "ptr" || c.T.K == "time" {
+			return false
+		}
 		// documented: single values or slices / arrays of int, float, bool, string
 		if c.T.Elem != nil && (c.T.Elem.K == "struct" || c.T.Elem.Elem != nil) {
 			return false
@@ -78,7 +81,7 @@ func (c *ScalarCase) path() string {
 	case "map", "mapiface":
 		return "map[" + scalarKey + "]"
 	case "listmap":
-		return "[1]map[" + scalarKey + "]"
+		return "[0]map[" + scalarKey + "]" // (and the same clauses again for [1]: the list holds the map twice)
 	}
 	return scalarKey
 }
@@ -122,7 +125,7 @@ func (c *ScalarCase) run() (errText string, isNil bool, panicked interface{}) {
 			rm := valid.RM{scalarKey: rules}
 			if c.Carrier == "listmap" {
 				l := reflect.MakeSlice(reflect.SliceOf(m.Type()), 2, 2)
-				l.Index(0).Set(reflect.MakeMap(m.Type()))
+				l.Index(0).Set(m)
 				l.Index(1).Set(m)
 				err = valid.Map(l.Interface(), rm)
 			} else {
@@ -213,10 +216,20 @@ func (c *ScalarCase) expect() *model.Result {
 			if !structCarrier {
 				add("cfg") // "no support"
 			} else if !v.IsZero() {
-				if k := v.Kind(); k == reflect.Slice || k == reflect.Array {
-					break // a collection of scalars under exist: entered, nothing inside
+				switch v.Kind() {
+				case reflect.Slice, reflect.Array, reflect.Map, reflect.Struct:
+					// entered; the harness's inner types carry no rules
+				case reflect.Ptr:
+					pt := v.Type()
+					for pt.Kind() == reflect.Ptr {
+						pt = pt.Elem()
+					}
+					if pt.Kind() != reflect.Struct {
+						res.Excluded = append(res.Excluded, "exist-on-pointer-to-scalar")
+					}
+				default:
+					add("nonsupport")
 				}
-				add("nonsupport")
 			}
 		case key == "either" || key == "botheq":
 			if c.Missing {
@@ -233,6 +246,11 @@ func (c *ScalarCase) expect() *model.Result {
 			}
 			if model.IsEmptyForRequired(v) {
 				res.Excluded = append(res.Excluded, "empty-non-nil-collection")
+				break
+			}
+			if !scalarOrScalarSlice(v) {
+				// structs, pointers, maps under a non-required rule: outside every listed property
+				res.Excluded = append(res.Excluded, "non-scalar-under-rule")
 				break
 			}
 			env := fsEnv
@@ -258,6 +276,15 @@ func (c *ScalarCase) expect() *model.Result {
 		}
 		first = false
 	}
+	if c.Carrier == "listmap" {
+		n := len(res.Seq)
+		for i := 0; i < n; i++ {
+			e := *res.Seq[i].C
+			e.Path = strings.Replace(e.Path, "[0]map[", "[1]map[", 1)
+			res.Seq = append(res.Seq, model.Item{C: &e})
+		}
+		res.Violations *= 2
+	}
 	if c.Carrier == "var" && len(res.Seq) == 0 && c.rules() == "" {
 		res.Excluded = append(res.Excluded, "no-rule")
 	}
@@ -277,3 +304,15 @@ func (c *ScalarCase) ifaceKnown() bool {
 }
 
 func (c *ScalarCase) String() string { return fmt.Sprintf("%s %s %v", c.Carrier, c.T.K, c.Rules) }
+
+func scalarOrScalarSlice(v reflect.Value) bool {
+	k := v.Kind()
+	if k == reflect.Slice || k == reflect.Array {
+		k = v.Type().Elem().Kind()
+	}
+	switch k {
+	case reflect.Struct, reflect.Ptr, reflect.Map, reflect.Slice, reflect.Array, reflect.Interface, reflect.Func, reflect.Chan:
+		return false
+	}
+	return true
+}
